@@ -10,7 +10,9 @@ from vf.core import Test
 from vf.lib import buf
 
 RULE = ("cases: (a) pipelines initialize -> generate -> verify -> serialize/parse over n inputs in 1..256: EVERY (n <= 8, subset size 0..n, set of positions whose fixed tag equals "
-        "the output tag) exhaustively, above that sampled with 255 and 256 always present; iteration limits {0,1,10,100}; blinding keys from the 256-bit edge set (0, n-1, >= n), "
+        "the output tag, and for n <= 5 every assignment {unrelated, output tag, NEAR-duplicate of the output tag} to the positions) exhaustively, above that sampled with 255 and "
+        "256 always present; near-duplicates = output tag with one bit / byte changed at byte 0, 7, 8, 15, 16, 23, 24, 31 or sharing only the first 1/4/8/16/24/31 bytes, in lists with "
+        "and without an exact match; iteration limits {0,1,10,100}; blinding keys from the 256-bit edge set (0, n-1, >= n), "
         "wrong keys, an ephemeral input equal to the ephemeral output; duplicated fixed tags; afterwards the honest proof is re-verified with a replaced / swapped / dropped / "
         "added tag and with flipped proof bits; the selection is read back through serialize; (b) candidate proofs for chosen tag points: reference-prover-made with chosen small "
         "forged scalars and their s+n twins, empty selection with e0 = H(m) (forgeable from public data), a selected input equal to the output (ring key at infinity), random "
@@ -113,6 +115,29 @@ def h32(*parts):
     return ec.sha256(b"|".join(p if isinstance(p, bytes) else str(p).encode() for p in parts))
 
 
+# near-duplicates of the output tag: one bit / one byte changed at a position anywhere in the 32 bytes, or only a common prefix of k bytes.
+# They are NOT the output tag: initialize must never report one of them as the matching input.
+NEAR_KINDS = ([["bit", p, b] for p in (0, 7, 8, 15, 16, 23, 24, 31) for b in (0, 7)] + [["byte", p, d] for p in (0, 7, 8, 15, 16, 31) for d in (1, 0x80, 0xFF)]
+              + [["prefix", k, 0] for k in (1, 4, 8, 16, 24, 31)])
+
+
+def near_tag(out_tag, spec, ts, i):
+    kind, a, b = spec
+    t = bytearray(out_tag)
+    if kind == "bit":
+        t[a % 32] ^= 1 << (b % 8)
+    elif kind == "byte":
+        t[a % 32] ^= (b % 255) + 1
+    else:                       # the first a bytes are shared, byte a differs, the rest is unrelated
+        a = a % 32
+        rest = bytearray(h32("near", ts, i))
+        t[a:] = rest[a:]
+        if t[a] == out_tag[a]:
+            t[a] ^= 0x5A
+    assert bytes(t) != out_tag
+    return bytes(t)
+
+
 def pipeline_tags(case):
     n = case["n"]
     ts = case["tagseed"]
@@ -121,6 +146,9 @@ def pipeline_tags(case):
     for a, b in case.get("dup", []):
         if a < n and b < n:
             tags[a] = tags[b]
+    for i_s, spec in case.get("near", {}).items():
+        if int(i_s) < n:
+            tags[int(i_s)] = near_tag(out_tag, spec, ts, int(i_s))
     for i in case["match"]:
         if i < n:
             tags[i] = out_tag
@@ -136,6 +164,11 @@ def run_pipeline(env, case):
     matching = [i for i in range(n) if tags[i] == out_tag]
     seed = bytes.fromhex(case["seed"])
     classes = ["n=%s" % (n if n <= 8 or n >= 255 else "mid"), "k=0" if k == 0 else ("k=n" if k == n else "k<n"), "match=%s" % min(len(matching), 3), "iters=%d" % iters]
+    near = [int(i_s) for i_s in case.get("near", {}) if int(i_s) < n and tags[int(i_s)] != out_tag]
+    if near:
+        classes.append("near_dup_and_exact" if matching else "near_dup_only")
+        if any(tags[i][:8] == out_tag[:8] for i in near):
+            classes.append("near_dup_shares_8_bytes")
     ret, idx, proof = lib_initialize(env, tags, k, out_tag, iters, seed)
     env.require(lib.illegal() == 0 and lib.errors() == 0, "callback fired in initialize with documented arguments: " + lib.cbmsg())
     env.require(0 <= ret <= max(1, iters), "initialize returned %d with max_n_iterations = %d" % (ret, iters))
@@ -152,7 +185,10 @@ def run_pipeline(env, case):
     n_enc, used, _, _ = pref
     env.require(n_enc == n and d.secp256k1_surjectionproof_n_total_inputs(lib.ctx, proof) == n, "initialized proof reports %d inputs, %d were given" % (n_enc, n))
     env.require(len(used) == k and d.secp256k1_surjectionproof_n_used_inputs(lib.ctx, proof) == k, "selection has %d inputs, %d were requested" % (len(used), k), used=used)
-    env.require(idx < n and tags[idx] == out_tag, "initialize returned input_index %d whose fixed tag differs from the output tag" % idx)
+    env.require(idx < n and tags[idx] == out_tag, "initialize returned input_index %d whose fixed tag differs from the output tag%s"
+                % (idx, " (it only resembles it)" if idx in near else ""), tag=tags[idx] if idx < n else None, out=out_tag)
+    if near:
+        classes.append("near_dup_exact_index_ok")
     env.require(idx in used, "initialize succeeded but input_index %d is not in the selected subset" % idx, used=used)
     # ---- determinism; heap variant
     ret2, idx2, proof2 = lib_initialize(env, tags, k, out_tag, iters, seed)
@@ -282,30 +318,45 @@ def run_pipeline(env, case):
     return nt, classes
 
 
-def _small_block(tier, shard, nshards, nmax):
-    """every n <= nmax, every subset size 0..n, every set of positions carrying the output tag"""
+def _small_case(n, k, pat, rep):
+    """pat[j] in {0: unrelated tag, 1: the output tag, 2: a near-duplicate of the output tag}"""
+    h = h32("small", n, k, "".join(map(str, pat)), rep)
+    case = {"n": n, "k": k, "match": [j for j in range(n) if pat[j] == 1], "iters": [100, 100, 10, 1, 0, 100][h[0] % 6], "seed": h32("seed", h).hex(),
+            "tagseed": h[:8].hex(), "out_key": ec.b2i(h32("ok", h)), "alloc": h[1] % 8 == 0, "refgen": h[2] % 4 == 0,
+            "muts": [{"kind": ["bitflip", "tag_selected_replace", "sel_to_output", "count_minus", "out_replace", "swap"][h[3] % 6], "a": h[4] * 256 + h[5], "b": h[6]}] if h[7] % 2 else []}
+    nr = {str(j): NEAR_KINDS[(h[8 + j] + 7 * rep) % len(NEAR_KINDS)] for j in range(n) if pat[j] == 2}
+    if nr:
+        case["near"] = nr
+    return case
+
+
+def _small_block(tier, shard, nshards, nmax, n3):
+    """every n <= nmax, every subset size 0..n; for n <= n3 every assignment {unrelated, output tag, near-duplicate} to the positions (3^n), above that every set of
+    positions carrying the output tag (2^n), the other positions being all unrelated or all near-duplicates (alternating)"""
     reps = 1 if tier == "quick" else 6
     i = 0
     for n in range(1, nmax + 1):
         for k in range(0, n + 1):
-            for mask in range(1 << n):
+            for code in range(3 ** n if n <= n3 else 2 ** n):
                 for rep in range(reps):
                     i += 1
                     if i % nshards != shard:
                         continue
-                    h = h32("small", n, k, mask, rep)
-                    yield {"n": n, "k": k, "match": [j for j in range(n) if mask >> j & 1], "iters": [100, 100, 10, 1, 0, 100][h[0] % 6], "seed": h32("seed", h).hex(),
-                           "tagseed": h[:8].hex(), "out_key": ec.b2i(h32("ok", h)), "alloc": h[1] % 8 == 0, "refgen": h[2] % 4 == 0,
-                           "muts": [{"kind": ["bitflip", "tag_selected_replace", "sel_to_output", "count_minus", "out_replace", "swap"][h[3] % 6], "a": h[4] * 256 + h[5], "b": h[6]}] if h[7] % 2 else []}
+                    if n <= n3:
+                        pat = [(code // 3 ** j) % 3 for j in range(n)]
+                    else:
+                        other = 2 if (code + k + rep) % 2 else 0
+                        pat = [1 if code >> j & 1 else other for j in range(n)]
+                    yield _small_case(n, k, pat, rep)
 
 
 def small_block(tier, shard, nshards):
-    return _small_block(tier, shard, nshards, 8)
+    return _small_block(tier, shard, nshards, 8, 5)
 
 
 def small_block_san(tier, shard, nshards):
-    # the sanitizer / VERIFY build repeats the block up to n = 6 (quick) -- its job is memory safety and the library's own assertions, not the enumeration
-    return _small_block(tier, shard, nshards, 6 if tier == "quick" else 8)
+    # the sanitizer / VERIFY build repeats a smaller block in the quick tier -- its job is memory safety and the library's own assertions, not the enumeration
+    return _small_block(tier, shard, nshards, 6, 4) if tier == "quick" else _small_block(tier, shard, nshards, 8, 5)
 
 
 key_st = st.one_of(st.sampled_from([0, 1, 2, N - 1, N - 2, (N - 1) // 2]), gens.u256_edge, st.integers(0, N - 1))
@@ -324,6 +375,13 @@ def pipeline_case(draw):
         case["in_keys"] = {str(draw(st.integers(0, 2))): draw(key_st)}
     if n >= 2 and draw(st.integers(0, 3)) == 0:
         case["dup"] = [[draw(st.integers(0, n - 1)), draw(st.integers(0, n - 1))] for _ in range(draw(st.integers(1, 3)))]
+    if draw(st.integers(0, 2)) == 0:
+        # near-duplicates of the output tag (exact matches, if any, keep their positions): with and without an exact match in the list
+        cnt = draw(st.sampled_from([1, 1, 2, 3, n]))
+        pos = draw(st.lists(st.integers(0, n - 1), min_size=1, max_size=min(cnt, 24)))
+        case["near"] = {str(i): draw(st.sampled_from(NEAR_KINDS)) for i in pos}
+        if draw(st.integers(0, 2)) == 0:
+            case["match"] = []
     nmut = draw(st.sampled_from([0, 1, 1, 2])) if k <= 64 else draw(st.sampled_from([0, 0, 1]))
     case["muts"] = [{"kind": draw(st.sampled_from(["tag_replace", "tag_selected_replace", "out_replace", "swap", "count_minus", "count_plus", "bitflip", "bitflip", "sel_to_output"])),
                      "a": draw(st.integers(0, 65535)), "b": draw(st.integers(0, 65535))} for _ in range(nmut)]
@@ -588,11 +646,14 @@ _PROD = {"quick": ["prod"], "thorough": ["prod"]}
 _SAN = {"quick": ["vsan"], "thorough": ["vsan"]}
 TESTS = [
     Test("small_block", small_block, run_pipeline, kind="enum", cfgs=_PROD, max_workers=6,
-         must_cover=["n=1", "n=8", "k=0", "k=n", "k<n", "match=0", "match=3", "honest_ok", "init_fail", "alloc", "mut_reject", "mut:sel_to_output"]),
-    Test("small_block_san", small_block_san, run_pipeline, kind="enum", cfgs=_SAN, max_workers=6, must_cover=["n=1", "n=6", "honest_ok", "init_fail", "alloc", "mut_reject"]),
+         must_cover=["n=1", "n=8", "k=0", "k=n", "k<n", "match=0", "match=3", "honest_ok", "init_fail", "alloc", "mut_reject", "mut:sel_to_output",
+                     "near_dup_only", "near_dup_and_exact", "near_dup_shares_8_bytes", "near_dup_exact_index_ok"]),
+    Test("small_block_san", small_block_san, run_pipeline, kind="enum", cfgs=_SAN, max_workers=6,
+         must_cover=["n=1", "n=6", "honest_ok", "init_fail", "alloc", "mut_reject", "near_dup_only", "near_dup_and_exact"]),
     Test("pipeline", pipeline_case, run_pipeline, quick=420, thorough=16000, cfgs=_CFG, max_workers=6,
          must_cover=["n=255", "n=256", "honest_ok", "keys:wrong_in", "keys:big_in", "keys:same_as_out", "eph_input_equals_output", "dishonest_reject", "zero_key",
-                     "mut:bitflip", "mut:count_minus", "mut:count_plus", "mut:tag_selected_replace", "mut_reject"]),
+                     "mut:bitflip", "mut:count_minus", "mut:count_plus", "mut:tag_selected_replace", "mut_reject",
+                     "near_dup_only", "near_dup_and_exact", "near_dup_shares_8_bytes", "near_dup_exact_index_ok"]),
     Test("verify_strings", string_case, run_strings, quick=1200, thorough=30000, cfgs=_CFG, max_workers=6,
          must_cover=["ref_prover", "accept", "reject", "parse_reject", "s_plus_n_twin", "twin_of_valid_proof", "empty_selection_hash_forgery", "selected_input_is_output", "count_mismatch",
                      "mut:padbit", "mut:nfield", "mut:s_zero", "n=0", "n=256"]),
